@@ -317,6 +317,40 @@ fn apply_generic<const N: usize>(case: &ApplyCase, obs: &mut Obs) -> PropResult 
 		Act::Remove(a) => quill::tree::mappings_diff::Action::Remove(quill::tree::mappings::JavadocMapping(a.clone())),
 		Act::Edit(a, b) => quill::tree::mappings_diff::Action::Edit(quill::tree::mappings::JavadocMapping(a.clone()), quill::tree::mappings::JavadocMapping(b.clone())),
 	};
+	// the name of the target namespace itself is a value the diff may edit (the root `info` action): stated old name
+	// matching / mismatching, or an addition that collides with the existing name
+	let ns_sel = (sel >> 9) % 20;
+	let old_ns = case.m.ns[case.ns].clone();
+	let ns_act = match ns_sel {
+		0 => Act::Edit(old_ns.clone(), "renamedNamespace".to_string()),
+		1 => Act::Edit(format!("{old_ns}X"), "renamedNamespace".to_string()),
+		2 => Act::Edit(case.m.ns[0].clone(), "renamedNamespace".to_string()), // the name of another namespace (ns >= 1)
+		3 => Act::Add("renamedNamespace".to_string()),
+		_ => Act::None,
+	};
+	qd.info = match &ns_act {
+		Act::Edit(a, b) => Action::Edit(a.clone(), b.clone()),
+		Act::Add(b) => Action::Add(b.clone()),
+		_ => Action::None,
+	};
+	let expected_ns: Result<String, String> = match &ns_act {
+		Act::None => Ok(old_ns.clone()),
+		Act::Edit(a, b) if *a == old_ns => Ok(b.clone()),
+		Act::Edit(a, _) => Err(format!("namespace edit from {a:?} does not match {old_ns:?}")),
+		_ => Err("namespace addition collides with the existing namespace".to_string()),
+	};
+	obs.label(format!("namespace_action:{}", match (&ns_act, &expected_ns) {
+		(Act::None, _) => "none",
+		(Act::Add(_), _) => "add_collides",
+		(_, Ok(_)) => "edit_matching",
+		_ => "edit_mismatching",
+	}));
+	if let (Err(why), Applied::Ok(_)) = (&expected_ns, &expected) {
+		expected = Applied::Refuse(why.clone());
+	}
+	if let (Ok(new_ns), Applied::Ok(exp)) = (&expected_ns, &mut expected) {
+		exp.ns[case.ns] = new_ns.clone();
+	}
 	let expected_doc = refops::apply_opt(&act, &target_doc, "comment of the set");
 	obs.label(format!(
 		"set_comment:{}:{}",
